@@ -493,6 +493,9 @@ def run_session(cell, spec, script):
                     for j, x in enumerate(X):
                         obj = step["objs"][j % len(step["objs"])] if step["objs"] else 0.0
                         backlog.append((x, obj))
+                    if step.get("no_tell"):
+                        # ask again before any tell (public API; the search loop never does)
+                        continue
                     # tell a subset now, the rest later (results of a search loop arrive out of step)
                     now, later = [], []
                     for j, item in enumerate(backlog):
@@ -677,7 +680,7 @@ def session_request(cell, decl, rec, univ=None):
     return req
 
 
-def gen_script(rng, n_rounds, max_batch, fail_p=0.2, batches=None):
+def gen_script(rng, n_rounds, max_batch, fail_p=0.2, batches=None, again_p=0.0):
     script = []
     for k in range(n_rounds):
         n = batches[k % len(batches)] if batches else rng.randint(1, max_batch)
@@ -688,7 +691,10 @@ def gen_script(rng, n_rounds, max_batch, fail_p=0.2, batches=None):
             else:
                 objs.append(rng.choice([round(rng.uniform(-3, 3), 3), float(rng.randint(-2, 5)), rng.randint(-2, 5)]))
         tell = [rng.random() < 0.8 for _ in range(rng.randint(1, 4))]
-        script.append({"n": n, "objs": objs, "tell": tell})
+        step = {"n": n, "objs": objs, "tell": tell}
+        if again_p and k < n_rounds - 1 and rng.random() < again_p:
+            step["no_tell"] = True
+        script.append(step)
     return script
 
 
